@@ -18,8 +18,15 @@ const E = 10 * time.Second
 
 var res *vrt.Result
 
-// ops: 0..3 datapoint of type c,g,s,ms ; 4..6 clock step ; 7 flush
-var opNames = []string{"dp:c", "dp:g", "dp:s", "dp:ms", "step:E/2", "step:E", "step:E+1ns", "flush"}
+// ops: 0..3 datapoint of type c,g,s,ms with a fresh value; 4,5 gauge / set datapoint repeating the previous value;
+// 6..8 clock step ; 9 flush
+var opNames = []string{"dp:c", "dp:g", "dp:s", "dp:ms", "dp:g(same value)", "dp:s(same member)", "step:E/2", "step:E", "step:E+1ns", "flush"}
+
+const (
+	nDP    = 6
+	opStep = 6
+	opFlsh = 9
+)
 var steps = []time.Duration{E / 2, E, E + 1}
 var types = []string{"c", "g", "s", "t"}
 
@@ -38,6 +45,7 @@ type world struct {
 	now  time.Duration
 	ref  [4]rser
 	nval float64
+	members map[float64]bool // set members received since the last flush
 }
 
 func newWorld(c cfg) *world {
@@ -52,22 +60,40 @@ func (w *world) ts() gostatsd.Nanotime { return gostatsd.Nanotime(fx.Epoch.Add(w
 // apply performs op; returns a violation message or "".
 func (w *world) apply(c cfg, op int) string {
 	switch {
-	case op < 4:
-		w.nval++
+	case op < nDP:
+		repeat := op >= 4
+		if op == 4 {
+			op = 1
+		} else if op == 5 {
+			op = 2
+		}
+		if !repeat || w.nval == 0 {
+			w.nval++
+		}
 		mm := gostatsd.NewMetricMap(false)
 		ty := []gostatsd.MetricType{gostatsd.COUNTER, gostatsd.GAUGE, gostatsd.SET, gostatsd.TIMER}[op]
 		mm.Receive(&gostatsd.Metric{Name: "x", Type: ty, Value: w.nval, StringValue: fmt.Sprint("m", w.nval), Rate: 1, Timestamp: w.ts()})
 		w.ag.ReceiveMap(mm)
 		r := &w.ref[op]
+		if ty == gostatsd.SET {
+			if w.members == nil {
+				w.members = map[float64]bool{}
+			}
+			if w.members[w.nval] {
+				r.pending-- // the same member again does not grow the set
+			}
+			w.members[w.nval] = true
+		}
 		if !r.present || w.now > r.last {
 			r.gauge = nil
 		}
 		r.gauge = append(r.gauge, w.nval)
 		r.present, r.last = true, w.now
 		r.pending++
-	case op < 7:
-		w.now += steps[op-4]
+	case op < opFlsh:
+		w.now += steps[op-opStep]
 	default:
+		w.members = nil
 		w.ag.Flush(time.Second)
 		var snap []fx.Series
 		var timers []gostatsd.Timer
